@@ -8,9 +8,11 @@ import (
 	"io"
 	"os"
 	"os/exec"
+	"runtime"
 	"strings"
 	"sync"
 	"sync/atomic"
+	"time"
 
 	hclog "github.com/hashicorp/go-hclog"
 	"github.com/hashicorp/go-plugin/runner"
@@ -148,3 +150,50 @@ func (o *obsWriter) write(v interface{}) {
 }
 
 func (o *obsWriter) close() { o.mu.Lock(); o.w.Flush(); o.f.Close(); o.mu.Unlock() }
+
+// caseWatch is a per-process watchdog for case-table drivers: a case that does not finish in time
+// is reported as hung (with a goroutine dump) and the process exits with status 3, so that the
+// caller can restart it on the remaining cases.
+type caseWatch struct {
+	mu      sync.Mutex
+	started map[string]time.Time
+	ow      *obsWriter
+	limit   time.Duration
+}
+
+func newCaseWatch(ow *obsWriter, limit time.Duration) *caseWatch {
+	if s := os.Getenv("VERIF_CASE_TIMEOUT_S"); s != "" {
+		var n int
+		fmt.Sscanf(s, "%d", &n)
+		if n > 0 {
+			limit = time.Duration(n) * time.Second
+		}
+	}
+	w := &caseWatch{started: map[string]time.Time{}, ow: ow, limit: limit}
+	go func() {
+		for {
+			time.Sleep(250 * time.Millisecond)
+			w.mu.Lock()
+			var hung []string
+			for n, t := range w.started {
+				if time.Since(t) > w.limit {
+					hung = append(hung, n)
+				}
+			}
+			w.mu.Unlock()
+			if len(hung) > 0 {
+				buf := make([]byte, 1<<20)
+				n := runtime.Stack(buf, true)
+				for _, h := range hung {
+					ow.write(map[string]interface{}{"name": h, "hang": true, "limit_s": w.limit.Seconds(), "dump": string(buf[:n])})
+				}
+				fmt.Printf("HANG %v\n", hung)
+				os.Exit(3)
+			}
+		}
+	}()
+	return w
+}
+
+func (w *caseWatch) begin(name string) { w.mu.Lock(); w.started[name] = time.Now(); w.mu.Unlock() }
+func (w *caseWatch) end(name string)   { w.mu.Lock(); delete(w.started, name); w.mu.Unlock() }
